@@ -7,6 +7,9 @@ import subprocess
 ROOT = os.path.dirname(os.path.dirname(os.path.abspath(__file__)))
 
 TECH = {
+    "C09": ("contracts on Base58(Check), Bech32/Bech32m, WIF and address<->scriptPubKey functions vs reference encoders; exhaustive single and sampled/exhaustive double substitutions of segwit addresses", "2 C09"),
+    "C16": ("contracts on calc_core_checksum, parse_full_key_record and P2WSHSortedMulti.__init__/parse/get_address vs reference descriptor checksum + BIP32 + sortedmulti; record permutations; single-character substitution sweeps", "2 C16"),
+    "C20": ("contracts on bc32, CBOR and BCUR single/multi encode/parse vs a strict reference receiver; permutations/omissions/foreign parts; every-position character substitutions", "2 C20"),
     "C14": ("contracts on bytes_to_mnemonic / mnemonic_to_bytes / hmac_sha512_kdf / PBKDF2.read / from_mnemonic vs reference BIP39 + hashlib PBKDF2; exhaustive last-word and 4-letter-prefix acceptance sets; word-list invariants", "2 C14"),
     "C15": ("contracts on the SLIP39 pipeline (rs1024, Share.parse/mnemonic, split/recover/interpolate, encrypt/decrypt) with a two-way differential against a reference SLIP39; exhaustive GF(256) tables; subset, mixed-split and 1..3-word corruption workloads", "2 C15"),
     "C17": ("contracts on merkle_root, MerkleBlock.is_valid/proved_txs, Block.hash/target/check_pow, bits/target conversion, retarget, HeadersMessage.is_valid vs reference chain model; exhaustive trees <= 10 leaves x all match sets; proof tampering; stubbed hash at the target boundary", "2 C17"),
